@@ -4,6 +4,9 @@ Engine N.  Query-set chains (filters with every operator, token(), IN, CONTAINS,
 Min/MaxTimeUUID, column-expression filters, order/limit/only/defer/allow_filtering, iff,
 if_exists, ttl, timestamp) are enumerated to a fixed length and finished by every terminal
 (select, count, update variants with every collection operator incl. empty operands, delete);
+every update/delete terminal is run three ways: unbatched, as the first statement(s) of a
+BatchQuery that another DML follows, and after that DML in the batch (statements built from one
+query set share their clause objects, so the numbering done by the batch is what is looked at);
 instance DML with options; all ordered pairs of DML makers inside a BatchQuery.  Every value that
 is requested is unique, so a placeholder bound to another clause's value is visible.  The
 statement text given to the fake session is parsed by the independent parser
@@ -17,9 +20,12 @@ from vt.core import Part, HarnessError
 META = {
     'level': 'exploration',
     'engine': 'N',
-    'technique': 'bounded-exhaustive enumeration of query-set chains, DML options and 2-statement batches; rendered text parsed back by an independent parser',
+    'technique': 'bounded-exhaustive enumeration of query-set chains (unbatched and at both positions of a batch), DML options and 2-maker batches; rendered text parsed back by an independent parser',
     'text': 'All chains of up to 2 (quick) / 3 (thorough) query-set operations over a 39-letter alphabet and all chains one longer over a '
-            '24-letter sub-alphabet (those with 7 of the terminals), the others finished by each of 20 terminals, plus instance DML under every option combination and every ordered pair of 14 DML makers in one BatchQuery. '
+            '24-letter sub-alphabet (those with 7 of the terminals), the others finished by each of 21 terminals; every update/delete terminal of a chain of up to 3 operations '
+            'is executed unbatched, inside a BatchQuery before a companion instance update, and inside a BatchQuery after it (an update that also nulls columns puts an UPDATE and a DELETE '
+            'built from the same filter/condition objects into the batch); plus instance and query-set DML makers (incl. updates that write one column and null others under conditions '
+            'given in either order) under every option combination alone and every ordered pair of them in one BatchQuery. '
             'For each statement handed to the session: the %(n)s markers in the text and the keys of the parameter dict are in '
             'bijection; the WHERE, IF, SET, DELETE-selection and USING parts parsed from the text, with each marker replaced by its '
             'bound value, equal the requested filters, conditions, assignments and options as multisets (all requested values are '
@@ -483,6 +489,7 @@ def judge(part, label, case, calls, expected):
 MODES = (None, 'batch-first', 'batch-second')
 NOT_BATCHABLE = ('select', 'count')
 COMPANION = 'inst update b[iff]'
+BATCH_MAX_LEN = 3                      # chains longer than this (thorough tier only) are run unbatched only
 
 
 def companion():
@@ -552,7 +559,7 @@ def run_chains(args):
                 for ti, (tname, tfn) in enumerate(T):
                     if long_only and tname not in LONG_TERMINALS:
                         continue
-                    for mode in MODES:
+                    for mode in (MODES if len(chain) <= BATCH_MAX_LEN else MODES[:1]):
                         if mode and tname in NOT_BATCHABLE:
                             continue
                         fr, req = Fresh(), req0.copy()
@@ -844,10 +851,11 @@ def run(ctx):
     ctx.count('alphabet', len(A))
     ctx.count('reduced_alphabet', len(reduced))
     ctx.cov['rule'] = ('alphabet of %d query-set operations, every chain of length 1..%d over it and every chain of length %d over the reduced '
-                       'alphabet (without %s) finished by the terminals %s, the others each finished by %d terminals; %d DML maker x option '
-                       'cases alone and all %d ordered pairs in one BatchQuery; an evaluation = one statement handed to the session; '
-                       'non-trivial = a chain with at least two bound filter/condition values, every DML case and every batch'
-                       % (len(A), full_depth, depth, sorted(REDUNDANT), sorted(LONG_TERMINALS), len(T), len(F), len(F) * len(F)))
+                       'alphabet (without %s) finished by the terminals %s, the others each finished by %d terminals; each update/delete terminal of a '
+                       'chain of length <= %d additionally inside a BatchQuery before and after the companion maker %r (counter chains_in_batch); %d DML maker x option '
+                       'cases alone and all %d ordered pairs in one BatchQuery; an evaluation = one statement text handed to the session; '
+                       'non-trivial = an unbatched chain with at least two bound filter/condition values, every batched chain, every DML case and every batch'
+                       % (len(A), full_depth, depth, sorted(REDUNDANT), sorted(LONG_TERMINALS), len(T), BATCH_MAX_LEN, COMPANION, len(F), len(F) * len(F)))
     ctx.cov['exhaustive'] = True
     ctx.assume('an empty set/list/map operand of add/remove/append/prepend/update asks for nothing to be added or removed; '
                'cqlengine may drop the clause or the whole statement')
